@@ -22,19 +22,55 @@ type histOp struct {
 	i    int
 	w    float64
 	all  []float64
+	// reject: the call has a documented panic (negative weight, wrong length) or an index outside
+	// the object; the caller recovers and goes on using the object, which must be unchanged.
+	reject bool
 }
 
 func (o histOp) String() string {
+	rj := ""
+	if o.reject {
+		rj = "!"
+	}
 	switch o.kind {
 	case "rw":
-		return fmt.Sprintf("Reweight(%d,%g)", o.i, o.w)
+		return fmt.Sprintf("Reweight%s(%d,%g)", rj, o.i, o.w)
 	case "all":
-		return fmt.Sprintf("ReweightAll(%v)", o.all)
+		return fmt.Sprintf("ReweightAll%s(%v)", rj, o.all)
 	}
 	return "Take"
 }
 
+// rejectedOps are the calls that must panic and leave the object as it was. negative: the
+// object documents a panic for a negative weight (Categorical; Weighted does not).
+func rejectedOps(n int, negative bool) []histOp {
+	ops := []histOp{
+		{kind: "rw", i: n, w: 1, reject: true},
+		{kind: "rw", i: -1, w: 1, reject: true},
+		{kind: "all", all: make([]float64, n+1), reject: true},
+		{kind: "all", all: make([]float64, n-1), reject: true},
+	}
+	ops[2].all[n] = 4
+	if negative {
+		for i := 0; i < n; i++ {
+			ops = append(ops, histOp{kind: "rw", i: i, w: -1.5, reject: true})
+		}
+		neg := make([]float64, n) // acceptable entries first, the negative one last
+		for i := range neg {
+			neg[i] = 7
+		}
+		neg[n-1] = -1
+		ops = append(ops, histOp{kind: "all", all: neg, reject: true})
+	}
+	return ops
+}
+
 func histOps(n int, take bool) []histOp {
+	ops := validOps(n, take)
+	return append(ops, rejectedOps(n, !take)...)
+}
+
+func validOps(n int, take bool) []histOp {
 	var ops []histOp
 	for i := 0; i < n; i++ {
 		for _, w := range histWeights {
@@ -56,6 +92,7 @@ func histOps(n int, take bool) []histOp {
 }
 
 func genHistories(gen *vlib.G) {
+	genRejected(gen)
 	for _, n := range []int{1, 2, 3, 4, 5} {
 		n := n
 		depth := 3
@@ -103,7 +140,7 @@ func checkCategoricalHistories(t *vlib.T, init []float64, depth int) {
 	n := len(init)
 	const K = 64
 	ops := histOps(n, false)
-	nh, nf := 0, 0
+	nh, nf, nrej := 0, 0, 0
 	forHistories(ops, depth, func(h []histOp) {
 		if nf > 5 {
 			return
@@ -112,7 +149,9 @@ func checkCategoricalHistories(t *vlib.T, init []float64, depth int) {
 		c := distuv.NewCategorical(init, nil)
 		for step, op := range h {
 			next := append([]float64(nil), model...)
-			if op.kind == "rw" {
+			if op.reject {
+				// the model ignores the call
+			} else if op.kind == "rw" {
 				next[op.i] = op.w
 			} else {
 				copy(next, op.all)
@@ -127,6 +166,15 @@ func checkCategoricalHistories(t *vlib.T, init []float64, depth int) {
 					c.ReweightAll(op.all)
 				}
 			}()
+			if op.reject {
+				if pan == nil {
+					nf++
+					r.fail("Categorical: call must be rejected", arg, "no panic")
+					return
+				}
+				nrej++
+				continue
+			}
 			if sum(next) == 0 {
 				// documented: at least one weight must stay positive
 				if pan == nil {
@@ -173,11 +221,14 @@ func checkCategoricalHistories(t *vlib.T, init []float64, depth int) {
 		cnt := make([]float64, n)
 		replay := func(c distuv.Categorical) distuv.Categorical {
 			for _, op := range h {
-				if op.kind == "rw" {
-					c.Reweight(op.i, op.w)
-				} else {
-					c.ReweightAll(op.all)
-				}
+				op := op
+				catch(func() {
+					if op.kind == "rw" {
+						c.Reweight(op.i, op.w)
+					} else {
+						c.ReweightAll(op.all)
+					}
+				})
 			}
 			return c
 		}
@@ -227,6 +278,7 @@ func checkCategoricalHistories(t *vlib.T, init []float64, depth int) {
 		r.fail("Categorical.ReweightAll-length", "", "no panic")
 	}
 	t.Count("histories", int64(nh))
+	t.Count("rejected_calls_in_histories", int64(nrej))
 	t.Max("history_depth", int64(depth))
 	t.Outcome(fmt.Sprintf("Categorical n=%d", n))
 }
@@ -261,7 +313,7 @@ func checkWeightedHistories(t *vlib.T, init []float64, depth int) {
 	n := len(init)
 	const K = 32
 	ops := histOps(n, true)
-	nh, nf := 0, 0
+	nh, nf, nrej := 0, 0, 0
 	forHistories(ops, depth, func(h []histOp) {
 		if nf > 5 {
 			return
@@ -275,6 +327,24 @@ func checkWeightedHistories(t *vlib.T, init []float64, depth int) {
 			s := sampleuv.NewWeighted(init, src)
 			for step, op := range h {
 				arg := fmt.Sprint(h[:step+1])
+				if op.reject {
+					op := op
+					if catch(func() {
+						if op.kind == "rw" {
+							s.Reweight(op.i, op.w)
+						} else {
+							s.ReweightAll(op.all)
+						}
+					}) == nil {
+						nf++
+						r.fail("Weighted: call must be rejected", arg, "no panic")
+						return s, nil, false
+					}
+					if lastAnswer == 0 {
+						nrej++
+					}
+					continue
+				}
 				switch op.kind {
 				case "rw":
 					s.Reweight(op.i, op.w)
@@ -349,6 +419,7 @@ func checkWeightedHistories(t *vlib.T, init []float64, depth int) {
 		}
 	})
 	t.Count("histories", int64(nh))
+	t.Count("rejected_calls_in_histories", int64(nrej))
 	t.Max("history_depth", int64(depth))
 	t.Outcome(fmt.Sprintf("Weighted n=%d", n))
 }
